@@ -18,5 +18,6 @@ def run(ctx, rep):
     e8_formulas.check_gen_degrees(facts, rep)
     e7_tables.check_shared_visited(facts, rep)
     e7_tables.check_exhaustive_sweep(facts, rep)
+    e7_tables.check_resolved_by(facts, rep)
     rep.rule('E23', e23_bigrade.__doc__.strip().split('\n')[0])
     e23_bigrade.run(facts, rep, parts=('G3', 'G4', 'G5'))
